@@ -8,6 +8,8 @@
    the raw copies with the extents actually touched) and validated against Trace_RingBuffer.
 4. DecodeBuffer (L1): the repeat / drain operations drive the ring through decode_buffer.rs; recorded and
    validated by the same trace specification (callers' preconditions = enabledness).
+0. RingArith.tla: the index arithmetic (extend with and without growth, drop, clear) for ARBITRARY capacities; its
+   inductive invariant is discharged symbolically by Apalache, TLC bridges its modulo-free wrap to the `%` form.
 """
 import json, os, random
 from ..common import *
@@ -41,9 +43,62 @@ def report_trace_failure(ctx, info, res, trace, what):
     ctx.violation(msg, {"trace_prefix": prefix})
 
 
+def ring_arith(ctx):
+    """RingArith.tla: the index arithmetic for ARBITRARY capacities.  Apalache discharges the inductive invariant
+    (Init => IndInv, IndInv /\\ Next => IndInv') symbolically over all integers; TLC ties the modulo-free wrap of that
+    module to the `%` of the code and of the specifications bound to it.  Self-test: with free() forgetting the unused
+    cell the induction step must fail."""
+    import shutil as _sh
+    d = ctx.path("apalache")
+    _sh.rmtree(d, ignore_errors=True)
+    os.makedirs(d)
+    src = open(os.path.join(ROOT, "spec", "RingArith.tla")).read()
+    open(os.path.join(d, "RingArith.tla"), "w").write(src)
+    dev = src.replace("MODULE RingArith ", "MODULE RingArithDev ").replace("ELSE cap - 1 - RLen", "ELSE cap - RLen")
+    if dev.count("ELSE cap - RLen") != 1:
+        raise ToolError("RingArith self-test: cannot derive the deviating module")
+    open(os.path.join(d, "RingArithDev.tla"), "w").write(dev)
+
+    def apal(module, init, length):
+        r = run(["timeout", "900", "apalache-mc", "check", "--init=" + init, "--inv=IndInv", "--length=%d" % length, "--out-dir=" + os.path.join(d, "out"), module + ".tla"],
+                cwd=d, timeout=1000, check=False)
+        out = r.stdout or ""
+        if "EXITCODE: OK" in out:
+            return True
+        if "EXITCODE: ERROR (12)" in out or "Found a violation" in out or "violation of invariant" in out.lower():
+            return False
+        raise ToolError("apalache-mc failed on %s (%s, length %d):\n%s" % (module, init, length, out[-1500:]))
+
+    base = apal("RingArith", "Init", 0)
+    step = apal("RingArith", "IndInit", 1)
+    dev_step = apal("RingArithDev", "IndInit", 1)
+    _sh.rmtree(os.path.join(d, "out"), ignore_errors=True)
+    if dev_step:
+        raise ToolError("self-test failed: the induction step also holds when free() forgets the unused cell")
+    if not base or not step:
+        ctx.violation("the ring index arithmetic does not preserve its invariant for arbitrary capacities (RingArith.tla: %s fails)"
+                      % ("Init => IndInv" if not base else "IndInv /\\ Next => IndInv'"), {"module": "spec/RingArith.tla"}, tag="arith")
+    # TLC: Wrap = % up to MaxCap, and the bounded graph satisfies the same invariant
+    mod = ctx.path("MC_RingArith.tla")
+    with open(mod, "w") as f:
+        f.write("---- MODULE MC_RingArith ----\nEXTENDS RingArithMC\n====\n")
+    cfg = ctx.path("MC_RingArith.cfg")
+    maxcap = 12 if ctx.quick else 24
+    write_cfg(cfg, spec="BSpec", constants={"MaxCap": maxcap}, invariants=["IndInv", "Safe"])
+    res = tlc(ctx, mod, cfg, workers=4, name="MC_RingArith", timeout=3000)
+    tlc_must_pass(ctx, res, "RingArithMC")
+    ctx.states += res.distinct
+    ctx.transitions += res.generated
+    ctx.cov["index_arithmetic_for_all_capacities"] = {
+        "apalache": "Init => IndInv and IndInv /\\ Next => IndInv' hold over all integers (symbolic, no bound on capacity or amounts)",
+        "selftest": "induction step fails when free() forgets the unused cell",
+        "tlc_bridge": "Wrap(a, n, c) = (a + n) %% c for all c <= %d; bounded graph of %d states satisfies IndInv" % (maxcap, res.distinct)}
+
+
 def check(ctx):
     vhbin = build_harness()
     quick = ctx.quick
+    ring_arith(ctx)
     # chunk size of the platform's wide copy
     r = vh(ctx, ["ringk"])
     K = int(r.stdout.strip())
